@@ -213,6 +213,12 @@ func NewDenomTracesRequest(method *abi.Method, args []interface{}) (*transfertyp
 		return nil, fmt.Errorf("error while unpacking args to PageRequest: %w", err)
 	}
 
+	// an empty key is decoded from the ABI as a non-nil empty slice, which the
+	// paginator rejects together with an offset; treat it as "no key"
+	if len(pageRequest.PageRequest.Key) == 0 {
+		pageRequest.PageRequest.Key = nil
+	}
+
 	req := &transfertypes.QueryDenomTracesRequest{
 		Pagination: &pageRequest.PageRequest,
 	}
